@@ -232,7 +232,7 @@ def run_real(spec):
         return targets.iq_real_case(spec)
 
     try:
-        res = run_with_watchdog(case, budget_s=40, what=f"IterableQueue real {spec['mode']}", signature=['hang', spec['mode']])
+        res = run_with_watchdog(case, budget_s=20, what=f"IterableQueue real {spec['mode']}", signature=['hang', spec['mode']])
     finally:
         reap_children()
     if res.get('error'):
